@@ -213,6 +213,52 @@ where
         if seen != n {
             return Err(format!("iterator yielded {seen} items, len is {n}"));
         }
+        // positional jumps: nth(p) yields the p-th copy and the iterator then continues behind it; skip and
+        // step_by agree with get; a jump beyond the end exhausts the iterator
+        let all: Vec<Value> = (0..n).map(|i| self.st.get(i).render()).collect();
+        for p in 0..n.min(12) {
+            let mut it = self.st.iter();
+            let at = it.nth(p).map(|x| x.render());
+            if at.as_ref() != Some(&all[p]) {
+                return Err(format!("iter().nth({p}) yields {:?}, expected {:?}", at, all[p]));
+            }
+            let rest: Vec<Value> = it.map(|x| x.render()).collect();
+            if rest != all[p + 1..] {
+                return Err(format!("after nth({p}) the iterator continues with {:?}, expected {:?}", rest, &all[p + 1..]));
+            }
+            // a second jump from the middle
+            if p + 2 < n {
+                let mut it = self.st.iter();
+                it.next();
+                let at = it.nth(p).map(|x| x.render());
+                let rest: Vec<Value> = it.map(|x| x.render()).collect();
+                if at.as_ref() != Some(&all[p + 1]) || rest != all[p + 2..] {
+                    return Err(format!("next(); nth({p}) yields {:?} then {:?}", at, rest));
+                }
+            }
+            let sk: Vec<Value> = self.st.iter().skip(p).map(|x| x.render()).collect();
+            if sk != all[p..] {
+                return Err(format!("iter().skip({p}) yields {:?}", sk));
+            }
+        }
+        if n > 0 {
+            for step in [2usize, 3] {
+                let got: Vec<Value> = self.st.iter().step_by(step).map(|x| x.render()).collect();
+                let want: Vec<Value> = (0..n).step_by(step).map(|i| all[i].clone()).collect();
+                if got != want {
+                    return Err(format!("iter().step_by({step}) yields {:?}, expected {:?}", got, want));
+                }
+            }
+            if self.st.iter().last().map(|x| x.render()).as_ref() != all.last() {
+                return Err("iter().last() differs from get(len-1)".into());
+            }
+        }
+        if self.st.iter().nth(n).is_some() {
+            return Err("iter().nth(len) yields an item".into());
+        }
+        if self.st.iter().count() != n {
+            return Err("iter().count() differs from len".into());
+        }
         if it.next().is_some() {
             return Err("iterator resumed after None".into());
         }
